@@ -498,7 +498,7 @@ def _shipped(cfg):
             p.request('do', m, w, None)
         # names the description does not list
         for a, aobj in obj.accessibles.items():
-            if aobj.export != a:
+            if a and aobj.export != a:      # (frappy.simulation creates a parameter with the empty name)
                 for act in ('read', 'change', 'do', 'activate'):
                     p.request(act, m, a, 1 if act == 'change' else None)
         for act in ('read', 'change', 'do', 'activate'):
@@ -512,6 +512,15 @@ def _shipped(cfg):
               if not obj.accessibles[a].export]
     return {'cfg': cfg, 'trace': p.trace(expect, rank=True), 'raw': [dict(e, upd=len(e['upd'])) for e in p.events],
             'hidden': hidden}
+
+
+def _fresh_map(fn, items):
+    """every item in a process of its own (class-level state of one configuration must not meet the next)"""
+    import multiprocessing as mp
+    import os
+    procs = int(os.environ.get('VERIF_PROCS', min(os.cpu_count() or 4, 8)))
+    with mp.get_context('fork').Pool(min(procs, len(items)), maxtasksperchild=1) as pool:
+        return pool.map(fn, items, 1)
 
 
 # ------------------------------------------------------------------ check
@@ -559,7 +568,7 @@ def run(chk):
         hidden.append(x['hidden'])
     worlds += ['generated:random'] * n
 
-    res = pool_map(_shipped, SHIPPED_QUICK if quick else SHIPPED_THOROUGH, procs=None, chunksize=1)
+    res = _fresh_map(_shipped, SHIPPED_QUICK if quick else SHIPPED_THOROUGH)
     for x in res:
         if 'error' in x:
             raise MachineryError(f"shipped configuration {x['cfg']} does not load: {x['error']}")
